@@ -98,6 +98,8 @@ def correspond(ctx, scale):
         big = ci % 6 == 5
         if big:
             K = rng.choice([1, 2])
+        if ci % 5 == 2 and (ci // 5) % 3 == 0:
+            K, cosine = rng.choice([1, 1, 2, 3]), False          # sign-symmetric first batch (below): few codes, so that a cluster's members cancel exactly
         iters = rng.choice([1, 2, 5, 10, 20])
         kw = dict(dim=d * heads, codebook_dim=d, heads=heads, separate_codebook_per_head=sep, codebook_size=K, kmeans_init=True, kmeans_iters=iters,
                   use_cosine_sim=cosine, decay=0.5, threshold_ema_dead_code=(2 if ci % 4 == 1 else 0))     # with expiry configured the initialising PURE call must still only initialise
@@ -116,6 +118,18 @@ def correspond(ctx, scale):
             b, nn_ = 4, 80 * K + rng.choice([1, 17])       # many more tokens than codes (hundreds per code)
             dist['big_first_batch'] += 1
         x = vqrec.grid(rng, (b, nn_, d * heads), den=8, lim=40)
+        if ci % 5 == 2 and nn_ >= 2:
+            # STRUCTURED first batches: sign-symmetric (every token next to its negation: a cluster's members cancel, its mean is exactly 0), duplicated
+            # tokens, tokens on a line - the mean of a cluster is its mean whatever it happens to be
+            half = x[:, : nn_ // 2]
+            kind_s = ['symmetric', 'duplicates', 'collinear'][(ci // 5) % 3]
+            if kind_s == 'symmetric':
+                x = torch.cat([half, -half] + ([torch.zeros(b, 1, d * heads)] if nn_ % 2 else []), dim=1)
+            elif kind_s == 'duplicates':
+                x = torch.cat([half, half] + ([half[:, :1]] if nn_ % 2 else []), dim=1)
+            else:
+                x = x[:, :1] * torch.tensor([float(j - nn_ // 2) for j in range(nn_)])[None, :, None]
+            dist['structured_first_batches'] = dist.get('structured_first_batches', 0) + 1
         kwargs = {}
         masked = rng.random() < 0.35 and nn_ > 1
         if masked:
